@@ -96,6 +96,17 @@ def pMwCase : P MwCase := do
   let calls ← list (pair str int)
   pure { rate, burst, cfg := { burst, headers, enforce, hasCallback }, calls }
 
+/-- kind `N`: `ratelimit.New(opts…)` — the option values as given; the model computes the configuration -/
+def pNewCase : P MwCase := do
+  let rateOpts ← list int
+  let burstOpts ← list int
+  let headers ← bool
+  let enforce ← bool
+  let hasCallback ← bool
+  let calls ← list (pair str int)
+  let c := newConfig rateOpts burstOpts
+  pure { rate := c.1, burst := c.2.toNat, cfg := { burst := c.2.toNat, headers, enforce, hasCallback }, calls }
+
 def pMwObs : P MwObs := do
   let status ← nat
   let ran ← bool
@@ -226,6 +237,11 @@ def step (line : String) : String :=
     | "V" :: rest =>
       match runP pScrCase rest, runP (pObs (list pWinObs)) obs with
       | some c, some (some o) => scrVerdict id c o
+      | some _, some none => verdict id false false "-" "P"
+      | _, _ => s!"{id} bad-case"
+    | "N" :: rest =>
+      match runP pNewCase rest, runP (pObs (list (pair pOut pMwObs))) obs with
+      | some c, some (some o) => mwVerdict id c o
       | some _, some none => verdict id false false "-" "P"
       | _, _ => s!"{id} bad-case"
     | "W" :: rest =>
